@@ -100,6 +100,17 @@ int protocols_sign(signature_t *sig,
                    int verbose);
 int protocols_verif(signature_t *sig, const public_key_t *pk, const unsigned char *m, size_t l);
 
+#ifdef SQISIGN_SQISIGN2D_WEST_AC24_VERIF
+/* Verification hook H4 ("verifier taps"): add-only, compiled out without the guard.
+ * When sqisign_verif_tap is non-NULL, protocols_verif reports intermediate values:
+ *   tag "E_chall"/"E1"/"E2"/"E_com"/"E_com_alt" : obj = const ec_curve_t *
+ *   tag "T1"/"T2"/"T1m2"  : obj = const theta_couple_point_t *, val = chain length n
+ *   tag "small_ker"       : obj = const ec_point_t *, val = length of the isogeny it generates
+ *   tag "check_chall"     : obj = const ibz_vec_2_t * (recomputed challenge vector) */
+typedef void (*sqisign_verif_tap_fn)(const char *tag, const void *obj, int val);
+extern sqisign_verif_tap_fn sqisign_verif_tap;
+#endif
+
 void public_key_init(public_key_t *pk);
 void public_key_finalize(public_key_t *pk);
 
